@@ -1,6 +1,8 @@
 package props
 
 import (
+	"github.com/fullstorydev/grpchan"
+	"mime"
 	"bytes"
 	"encoding/base64"
 	"fmt"
@@ -66,6 +68,12 @@ func checkC11(e *core.Env) {
 	svc := &Service{}
 	srv := httpgrpc.NewServer(httpgrpc.WithBasePath("/base/"))
 	srv.RegisterService(&ScriptedDesc, svc)
+	// the same service through the bulk-registration helper on a plain ServeMux
+	muxReg := grpchan.HandlerMap{}
+	muxReg.RegisterService(&ScriptedDesc, svc)
+	mux := http.NewServeMux()
+	httpgrpc.HandleServices(mux.HandleFunc, "/base/", muxReg, nil, nil)
+	servers := []http.Handler{srv, mux}
 	methods := []string{"POST", "POST", "POST", "POST", "GET", "PUT", "HEAD", "OPTIONS", "DELETE", "PATCH", "post", "Post"}
 	n := e.N(12000, 400000)
 	e.Cases("request", n, func(i int, r *rand.Rand) {
@@ -212,7 +220,7 @@ func checkC11(e *core.Env) {
 		hr.Header.Set("X-Verif-Run", run.ID)
 		rec := httptest.NewRecorder()
 		e.Note("%s %s ct=%q hdr=%s body=%s", method, path, ctc.ct, hdrClass, bodyClass)
-		pan := guard(func() { srv.ServeHTTP(rec, hr) })
+		pan := guard(func() { servers[i%2].ServeHTTP(rec, hr) })
 		count := int(run.hStarted.Load())
 		mclass := "POST"
 		if method != "POST" {
@@ -328,6 +336,9 @@ func checkC11(e *core.Env) {
 			if derr != nil || !proto.Equal(out, sc.Resp) {
 				e.Violate(sig+"ok-reply-body/"+fmt.Sprint(ctc.jsonCodec), fmt.Sprintf("unary reply does not decode to the handler's response with the request's codec (err=%v)", derr), w)
 			}
+			if mt, _, _ := mime.ParseMediaType(rec.Header().Get("Content-Type")); (ctc.jsonCodec && mt != "application/json") || (!ctc.jsonCodec && mt != httpgrpc.UnaryRpcContentType_V1) {
+				e.Violate(sig+"reply-content-type", fmt.Sprintf("successful unary reply to a %q request is labelled %q", ctc.ct, rec.Header().Get("Content-Type")), w)
+			}
 			if cl := rec.Header().Get("Content-Length"); cl != "" && cl != strconv.Itoa(rec.Body.Len()) {
 				e.Violate(sig+"content-length", fmt.Sprintf("Content-Length %s but body has %d bytes", cl, rec.Body.Len()), w)
 			}
@@ -342,6 +353,9 @@ func checkC11(e *core.Env) {
 		}
 		if rec.Code != 200 {
 			e.Violate(sig+"stream-reply-status", fmt.Sprintf("streaming reply has HTTP status %d", rec.Code), w)
+		}
+		if mt, _, _ := mime.ParseMediaType(rec.Header().Get("Content-Type")); rec.Code == 200 && mt != httpgrpc.StreamRpcContentType_V1 {
+			e.Violate(sig+"reply-content-type", fmt.Sprintf("streaming reply to a %q request is labelled %q", ctc.ct, rec.Header().Get("Content-Type")), w)
 		}
 		data, ntr, tr, rest := parseReply(rec.Body.Bytes())
 		if ntr != 1 || rest != 0 || tr == nil {
@@ -359,7 +373,7 @@ func checkC11(e *core.Env) {
 				e.Violate(sig+"truncated-request-as-clean-end", "request body cut in the middle of a frame: the handler's receives ended with a clean io.EOF", w)
 			}
 		}
-		if (bodyClass == "truncated" || bodyClass == "undecodable-message" || bodyClass == "garbage") && sc.Ret.How == "recverr" {
+		if (bodyClass == "truncated" || bodyClass == "undecodable-message" || bodyClass == "garbage" || bodyClass == "hostile-prefix") && sc.Ret.How == "recverr" {
 			// the handler returns its receive error: the caller must not be told OK
 			for _, ev := range run.Rets("h", "recv") {
 				if ev.Err != nil && ev.Err != io.EOF && tr.Code == 0 {
@@ -402,7 +416,7 @@ func checkC11(e *core.Env) {
 			hr.Header.Set("Content-Type", ct)
 			hr.Header.Set("X-Verif-Run", run.ID)
 			rec := httptest.NewRecorder()
-			srv.ServeHTTP(rec, hr)
+			servers[i%2].ServeHTTP(rec, hr)
 			svc.Forget(run)
 			if hrq := run.Rets("h", "recv"); len(hrq) > 0 {
 				got[j] = hrq[0].Msg
